@@ -34,6 +34,9 @@ type ncCase struct {
 	Binary bool  `json:"binary"`
 	Unit   int   `json:"unit"`
 	NoWait bool  `json:"nowait"` // a deadline reset follows an idle expiry without giving the timer callback time to run
+	// Immediate: the step after a deadline set in the past follows at once, before the adapter's timer goroutine can have run:
+	// the deadline HAS passed while no call was active, so that next call fails with a deadline error and the connection stays usable
+	Immediate bool `json:"immediate"`
 }
 
 type timerLog struct {
@@ -238,6 +241,9 @@ func runNetConn(rep *Report, nc ncCase, tl *timerLog, short *int64) {
 				which, name = conn.SetWriteDeadline, "NcTimerIdle1"
 			}
 			which(time.Now().Add(-time.Second))
+			if nc.Immediate {
+				continue
+			}
 			if nc.NoWait && si+1 < len(nc.Row.Steps) {
 				// The expiry callback runs on its own goroutine.  When the application resets the deadline straight away the
 				// callback may still be on its way; the reset must win whatever the order ("... until the deadline is reset").
@@ -418,6 +424,18 @@ func init() {
 					atomic.AddInt64(&evals, 1)
 					if len(nc.Row.Steps) >= 4 {
 						rep.sample(nc)
+					}
+				}
+				hasPast := false
+				for _, st := range row.Steps {
+					hasPast = hasPast || st.Op == "rdlPast" || st.Op == "wdlPast"
+				}
+				if hasPast && ui == 0 {
+					im := nc
+					im.Immediate = true
+					jobs <- func(*rand.Rand) {
+						runNetConn(rep, im, tl, &short)
+						atomic.AddInt64(&evals, 1)
 					}
 				}
 			}
